@@ -1,13 +1,15 @@
 """C18 — request timings span all sub-requests and never leak between clients.
 
 Leg M   : TLC on specs/ReqContext (repaired variant MinMaxPropagation = TRUE): every program of up to N tasks / contexts / wire
-          requests, every interleaving and completion order; invariants SpanStart, SpanEnd, LeafExact, action property NoLeak.
+          requests, every interleaving and completion order, every with block left normally or by an exception (failed
+          sub-request); invariants SpanStart, SpanEnd, LeafExact, action property NoLeak.
           Self-test: the as-written variant (MinMaxPropagation = FALSE) must violate SpanStart / SpanEnd in the model; TLC's
           counterexample is executed on the real code as one more S2C case.
 Leg S2C : TLC -simulate behaviours (wider bounds) are completed to closed scenarios and executed
           (a) step by step by scripted coroutines on the REAL RequestContextHolder / RequestContextManager (virtual clock),
-          (b) projected onto composite operations and run by the REAL AsyncExecutor -> Composite -> RequestTiming ->
-              raw-request / search / paginated-search runners against a scripted fake Elasticsearch, all clients in one loop.
+          (b) projected onto composite operations and run by the REAL AsyncExecutor (on-error=continue) -> Composite ->
+              RequestTiming -> raw-request / search / paginated-search runners against a scripted fake Elasticsearch (latencies,
+              chunks, ConnectionTimeout / ApiError for a sub-request whose block raises in the behaviour), all clients in one loop.
 Leg C2S : every recorded execution (those of S2C and seeded random scripts / composite cases not derived from TLC: ties between
           instants, deeper trees, sleeps, connection limits, throttled requests) is validated by TLC against TraceReqContext.tla:
           L1 = the property clauses on the recorded state (+ what reached the sampler), L2 = each step is the transcription's.
@@ -276,6 +278,12 @@ def run(ctx, out):
         "'recorded for a logical request' = RequestContextManager.request_start / request_end when the with block is left and afterwards (AsyncExecutor "
         "and RequestTiming read them just before), and request_start / service_time / dependent_timing of the samples handed to the Sampler",
         "nothing is claimed for a request context on whose behalf no wire request was issued",
+        "a wire request that fails (timeout, API error: on_request_end is called by the client's exception hook, the exception leaves the with block) has "
+        "been issued on behalf of the enclosing requests like any other; in scripts the exception is handled right outside the block it leaves",
+        "NOT judged: composite requests in which a stream fails while sibling streams are in flight - Composite.run_stream then leaves the request "
+        "without awaiting them (cancelled but not awaited, or not even cancelled when the failure surfaces in the trailing gather), i.e. outside the "
+        "structured usage discipline of the specification; such executions are detected by the recorder, counted and described in "
+        "coverage.failed_stream_with_siblings_in_flight",
         "observation: the code under test gets a subclass instance of the real RequestContextHolder (calls the real method, then records) and the real "
         "RequestContextManager behind a delegating proxy; absent / None of a timing is read from the manager's ctx dict; asyncio task creation is "
         "seen through the loop's task factory",
